@@ -3,7 +3,8 @@
 From Coq Require Import String.
 From Coq Require Import ZArith List Bool.
 From Cose Require Import Lib.Base Lib.GenTypes Model.GoVal Model.Key Model.KeyProofs Model.MsgLogic Model.MsgLogicProofs
-     Model.Dispatch Model.DispatchProofs Model.Equiv Spec.RFC9053.
+     Model.Dispatch Model.DispatchProofs Model.Equiv Spec.RFC9053
+     Lib.Cbor Lib.CborProofs Model.CborGo Model.Wire Model.ValueRoundTrip Model.Text Model.TextProofs Model.KeyRoundTrip.
 Import ListNotations.
 Open Scope Z_scope.
 
@@ -73,3 +74,33 @@ Print Assumptions C17_lookup_exact.
 Theorem C17_lookup_none : forall vs id, lookup_kid vs id = None <-> (forall k, In k vs -> kid k <> id).
 Proof. exact lookup_kid_none. Qed.
 Print Assumptions C17_lookup_none.
+
+(* a key after a CBOR, text or JSON round trip: for a key as applications build it (Go `int` / text labels, no label twice,
+   integer / byte string / text / boolean / null members, key_ops as []int or key.Ops) the three forms decode to one and the
+   same map k', and k' obtains the same implementations, passes the same CheckKey and the same per-operation gates as k,
+   for arbitrary crypto primitives *)
+Theorem C17_key_roundtrip_interchangeable : forall C k bs, good_key k ->
+  enc_cosemap k = Some bs ->
+  (forall it, item_of (VMap k) = Some it -> encodable it = true) ->
+  exists k', cosemap_of_bytes bs = Ok k'
+    /\ (exists t, cosemap_text k = Some t /\ cosemap_of_text t = Ok k')
+    /\ (exists j, cosemap_json k = Some j /\ cosemap_of_json j = Ok k')
+    /\ (forall kind, obtain C kind k' = obtain C kind k)
+    /\ (forall op, empty_or_has (key_ops k') op = empty_or_has (key_ops k) op)
+    /\ (forall f op, sym_performs f op k' = sym_performs f op k)
+    /\ ecdh_local_performs C k' = ecdh_local_performs C k.
+Proof. exact key_roundtrip_interchangeable. Qed.
+Print Assumptions C17_key_roundtrip_interchangeable.
+
+(* the order in which a map holds its entries is irrelevant to dispatch *)
+Theorem C17_obtain_order_irrelevant : forall C kind k k', Permutation.Permutation k k' -> NoDup (map fst k) -> obtain C kind k' = obtain C kind k.
+Proof. exact obtain_perm. Qed.
+Print Assumptions C17_obtain_order_irrelevant.
+
+(* the hypotheses are satisfiable: an HMAC key with key_ops whose entries are not in the encoder's order *)
+Theorem C17_roundtrip_nonvacuous :
+  let k := [(ilabel 3, VInt KInt 5); (ilabel 1, VInt KInt 4); (ilabel (-1), VBytes (zeros 32)); (ilabel 4, VOps (Some [9; 10])); (ilabel 2, VBytes (hex "6b6964"))] in
+  good_key k /\ read_back k <> k /\ sym_performs Hmac 9 k = true
+  /\ (forall it, item_of (VMap k) = Some it -> encodable it = true).
+Proof. exact good_key_example. Qed.
+Print Assumptions C17_roundtrip_nonvacuous.
